@@ -27,6 +27,10 @@ type Mutant struct {
 	More []Edit // further unique replacements in the same file
 	// Benign marks a behaviour-preserving edit: no check may report anything new on it.
 	Benign bool
+	// BenignFor restricts a benign mutant to the listed properties (comma separated). Used when the
+	// edit, while behaviour-preserving, adds constructs another check must by design prove anew
+	// (e.g. new index expressions for C07, which enumerates every index site).
+	BenignFor string
 }
 
 // Edit is one additional textual replacement of a mutant.
@@ -100,7 +104,9 @@ func runMutants(repo, verif, prop string) []mutantResult {
 	var ms []Mutant
 	for _, m := range allMutants() {
 		if m.Benign {
-			ms = append(ms, m)
+			if m.BenignFor == "" || strings.Contains(","+m.BenignFor+",", ","+prop+",") {
+				ms = append(ms, m)
+			}
 			continue
 		}
 		for _, p := range strings.Split(m.Prop, ",") {
